@@ -37,8 +37,9 @@ type outcome struct {
 	Out   string `json:"out,omitempty"`
 }
 
+// same: class, error text / panic value and output are what the call returns alone
 func (o outcome) same(p outcome) bool {
-	return (o.Err != "") == (p.Err != "") && (o.Panic != "") == (p.Panic != "") && o.Out == p.Out
+	return o.Err == p.Err && o.Panic == p.Panic && o.Out == p.Out
 }
 
 func doCall(cd *j5codec.Codec, b *cdesc.Built, enc map[int]string, c call) (o outcome) {
